@@ -33,6 +33,9 @@ type hdrCtx struct {
 	cwt    bool
 	claims string
 	isMap  bool
+	// key accessor mode (T14): receiver k of type key.Key
+	keyMode bool
+	errOk   map[types.Object]string // err variables of `v, err := k.GetX(L)`: the name of their "is nil" boolean
 }
 
 var claimsFields = map[string]string{"Expiration": "c_exp", "NotBefore": "c_nbf", "IssuedAt": "c_iat", "Issuer": "c_iss", "Audience": "c_aud"}
@@ -212,6 +215,9 @@ func (f *ftr) hdrExpr(e ast.Expr) (term, bool) {
 	if f.hdr.cwt {
 		return f.cwtExpr(e)
 	}
+	if f.hdr.keyMode {
+		return f.keyExpr(e)
+	}
 	if v, ok := f.hdrVar(e); ok {
 		return term{v, true}, true
 	}
@@ -300,6 +306,10 @@ func isErrCheck(s ast.Stmt) bool {
 func (f *ftr) hdrStmt(s ast.Stmt, next ast.Stmt) ([]irStmt, int, bool) {
 	if f.hdr == nil {
 		return nil, 0, false
+	}
+	if f.hdr.keyMode {
+		ir, ok := f.keyStmt(s)
+		return ir, 0, ok
 	}
 	switch x := s.(type) {
 	case *ast.AssignStmt:
@@ -742,6 +752,145 @@ func genCwtSlices(ps []pkgInfo) string {
 		}
 		pos := pi.p.Fset.Position(body[3].Pos())
 		fmt.Fprintf(&b, "(* Validator.%s after the choice of now — %s:%d *)\nDefinition %s %s : res unit :=\n  %s.\n\n", t.method, strings.TrimPrefix(pos.Filename, *repo+"/"), pos.Line, name, t.params, term)
+	}
+	return b.String()
+}
+
+// ---- T14: accessors of key.Key (Kty, Kid, Alg, BaseIV)
+
+func (f *ftr) keyExpr(e ast.Expr) (term, bool) {
+	h := f.hdr
+	switch x := e.(type) {
+	case *ast.BinaryExpr:
+		if (x.Op == token.EQL || x.Op == token.NEQ) && isNilIdent(x.Y) {
+			if id, ok := x.X.(*ast.Ident); ok {
+				if id.Name == h.recv {
+					if x.Op == token.EQL {
+						return term{"k_nil", true}, true
+					}
+					return term{"(negb k_nil)", true}, true
+				}
+				if n, ok := h.errOk[f.pi.p.TypesInfo.ObjectOf(id)]; ok {
+					if x.Op == token.EQL {
+						return term{n, true}, true
+					}
+					return term{"(negb " + n + ")", true}, true
+				}
+			}
+		}
+	case *ast.CallExpr:
+		if tv, ok := f.pi.p.TypesInfo.Types[x.Fun]; ok && tv.IsType() && len(x.Args) == 1 {
+			if b, ok := tv.Type.Underlying().(*types.Basic); ok && b.Info()&types.IsInteger != 0 {
+				return f.expr(x.Args[0]), true
+			}
+		}
+	}
+	return term{}, false
+}
+
+// keyStmt: `v, err := k.GetInt(L)` / `v, _ := k.GetBytes(L)` on the receiver
+func (f *ftr) keyStmt(s ast.Stmt) ([]irStmt, bool) {
+	x, ok := s.(*ast.AssignStmt)
+	if !ok || len(x.Lhs) != 2 || len(x.Rhs) != 1 || x.Tok != token.DEFINE {
+		return nil, false
+	}
+	call, ok := x.Rhs[0].(*ast.CallExpr)
+	v, vok := x.Lhs[0].(*ast.Ident)
+	e, eok := x.Lhs[1].(*ast.Ident)
+	if !ok || !vok || !eok || len(call.Args) != 1 {
+		return nil, false
+	}
+	sel, ok := call.Fun.(*ast.SelectorExpr)
+	if !ok {
+		return nil, false
+	}
+	id, ok := sel.X.(*ast.Ident)
+	if !ok || id.Name != f.hdr.recv {
+		return nil, false
+	}
+	l, lok := f.label(call.Args[0])
+	if !lok {
+		return nil, false
+	}
+	var total, partial, zero string
+	switch sel.Sel.Name {
+	case "GetInt":
+		total, partial, zero = "get_int_", "get_int", "0"
+	case "GetBytes":
+		total, partial, zero = "get_bytes_", "get_bytes", "[]"
+	default:
+		return nil, false
+	}
+	f.declare(v, v.Name)
+	if e.Name == "_" {
+		return []irStmt{irBind{f.nameOf(v), term{"(" + total + " k " + l + ")", true}}}, true
+	}
+	// the error is looked at later: keep the outcome, the value (zero value on error) and whether the error is nil
+	r := f.fresh()
+	f.declared["err_ok"]++
+	okName := "err_ok"
+	if f.declared["err_ok"] > 1 {
+		okName = fmt.Sprintf("err_ok_%d", f.declared["err_ok"])
+	}
+	if obj := f.pi.p.TypesInfo.Defs[e]; obj != nil {
+		f.hdr.errOk[obj] = okName
+	}
+	return []irStmt{
+		irBind{r, term{"(" + partial + " k " + l + ")", true}},
+		irBind{f.nameOf(v), term{"(val_or " + zero + " " + r + ")", true}},
+		irBind{okName, term{"(is_ok " + r + ")", true}},
+	}, true
+}
+
+func genKeyFuncs(ps []pkgInfo) string {
+	var b strings.Builder
+	b.WriteString("(* GENERATED by /verif/tools/gen (T14: accessors of key.Key) from the ldclabs/cose working tree. Do not edit. *)\n")
+	b.WriteString("From Coq Require Import List ZArith Bool.\nFrom Coq Require Import Strings.Byte.\nFrom Cose Require Import Lib.Base Lib.GoSem Model.GoVal Model.HdrSem Gen.FuncsGen.\nImport ListNotations.\nOpen Scope Z_scope.\n\n")
+	var pi *pkgInfo
+	for i := range ps {
+		if ps[i].short == "key" {
+			pi = &ps[i]
+		}
+	}
+	if pi == nil {
+		return b.String()
+	}
+	for _, m := range []string{"Kty", "Kid", "Alg", "BaseIV"} {
+		name := "key_Key_" + m
+		stub := func(why string) {
+			fmt.Fprintln(os.Stderr, "gen: T14:", name, "not translated:", why)
+			fmt.Fprintf(&b, "(* %s — NOT TRANSLATED: %s *)\nDefinition %s : unit := tt.\n\n", name, strings.ReplaceAll(why, "*)", "* )"), name)
+		}
+		var fd *ast.FuncDecl
+		for _, file := range pi.p.Syntax {
+			for _, d := range file.Decls {
+				if x, ok := d.(*ast.FuncDecl); ok && x.Body != nil && funcName(x) == "Key_"+m {
+					fd = x
+				}
+			}
+		}
+		if fd == nil || fd.Recv == nil || len(fd.Recv.List) != 1 || len(fd.Recv.List[0].Names) != 1 || len(fd.Type.Params.List) != 0 || fd.Type.Results == nil || len(fd.Type.Results.List) != 1 {
+			stub("method not found or of another signature")
+			continue
+		}
+		rt, ok := coqTypeOf(pi.p.TypesInfo.TypeOf(fd.Type.Results.List[0].Type))
+		if !ok {
+			stub("unsupported result type")
+			continue
+		}
+		f := &ftr{pi: *pi, all: ps, fd: fd, declared: map[string]int{}, byteVars: map[string]string{}, names: map[types.Object]string{},
+			hdr: &hdrCtx{recv: fd.Recv.List[0].Names[0].Name, keyMode: true, errOk: map[types.Object]string{}}}
+		for _, r := range []string{"k", "k_nil"} {
+			f.declared[r] = 1
+		}
+		ir := f.lower(fd.Body.List)
+		term := f.emit(ir, kont{kind: 0}, map[string]bool{})
+		if f.err != nil {
+			stub(f.err.Error())
+			continue
+		}
+		pos := pi.p.Fset.Position(fd.Pos())
+		fmt.Fprintf(&b, "(* Key.%s — %s:%d *)\nDefinition %s (k : cosemap) (k_nil : bool) : res %s :=\n  %s.\n\n", m, strings.TrimPrefix(pos.Filename, *repo+"/"), pos.Line, name, rt, term)
 	}
 	return b.String()
 }
